@@ -122,20 +122,55 @@ def _is_char_ptr(u, e, need_mutable=True):
     return s.count('*') == 1
 
 
+def _index_parts(idx):
+    """(counter decl, counter name, constant) of an index expression `i`, `i + c`, `i++`; None otherwise"""
+    if isinstance(idx, int):
+        return None
+    x = strip_casts(idx)
+    c = 0
+    if x.get('k') == 'un' and x.get('op') in ('post++', 'post--', 'pre++', 'pre--'):
+        x = strip_casts(x['e'])
+    while x.get('k') == 'bin' and x['op'] in ('+', '-') and const_val(x['r']) is not None:
+        c += const_val(x['r']) if x['op'] == '+' else -const_val(x['r'])
+        x = strip_casts(x['l'])
+    if x.get('k') == 'ref' and x.get('dk') == 'local':
+        return (x['d'], x['n'], c)
+    return None
+
+
 def _advances_and_stores(u, fn):
+    """advances of write cursors and stores through them.  A base pointer indexed by a counter (`dst[w + 1] = c; w += 2;`) is a
+    write cursor too: key 'dst[w]', advanced by the steps of the counter."""
     adv = {}
     sto = {}
     cfg = fn.cfg()
+    counters = {}       # counter decl -> set of stream keys
+    for n in cfg.nodes:
+        for ev in node_effects(n):
+            if ev.kind == 'store':
+                acc = access(ev.lhs)
+                ip = _index_parts(acc[1]) if acc is not None else None
+                if ip is not None and _is_char_ptr(u, acc[0]):
+                    key = '%s[%s]' % (_cursor_key(acc[0]), ip[1])
+                    counters.setdefault(ip[0], set()).add(key)
+                    sto.setdefault(key, []).append(ev)
     for n in cfg.nodes:
         for ev in node_effects(n):
             if ev.kind == 'incdec' and _is_char_ptr(u, ev.lhs, need_mutable=False):
                 adv.setdefault(_cursor_key(ev.lhs), []).append(ev)
+            elif ev.kind == 'incdec' and strip_casts(ev.lhs).get('k') == 'ref' and strip_casts(ev.lhs).get('d') in counters:
+                for key in counters[strip_casts(ev.lhs)['d']]:
+                    adv.setdefault(key, []).append(ev)
             elif ev.kind == 'store':
                 if ev.node['op'] in ('+=', '-=') and _is_char_ptr(u, ev.lhs, need_mutable=False):
                     adv.setdefault(_cursor_key(ev.lhs), []).append(ev)
+                if ev.node['op'] in ('+=', '-=') and strip_casts(ev.lhs).get('k') == 'ref' and strip_casts(ev.lhs).get('d') in counters:
+                    for key in counters[strip_casts(ev.lhs)['d']]:
+                        adv.setdefault(key, []).append(ev)
                 acc = access(ev.lhs)
-                if acc is not None and _is_char_ptr(u, acc[0]):
+                if acc is not None and _is_char_ptr(u, acc[0]) and _index_parts(acc[1]) is None:
                     sto.setdefault(_cursor_key(acc[0]), []).append(ev)
+    _advances_and_stores.counters = counters
     return adv, sto
 
 
@@ -148,6 +183,7 @@ def out5(units, R, only=None):
         if only and fn.name not in only:
             continue
         adv, sto = _advances_and_stores(u, fn)
+        counters = dict(_advances_and_stores.counters)
         cursors = [k for k in adv if k in sto]
         if not cursors:
             continue
@@ -156,9 +192,54 @@ def out5(units, R, only=None):
         cs = set(cursors)
         obligations = {}   # event id -> (ok, detail, node)
 
+        def streams_of_counter(lhs):
+            t = strip_casts(lhs)
+            if t.get('k') == 'ref' and t.get('d') in counters:
+                return [k for k in counters[t['d']] if k in cs]
+            return []
+
+        def stream_store(lhs):
+            acc = access(lhs)
+            ip = _index_parts(acc[1]) if acc is not None else None
+            if ip is not None:
+                key = '%s[%s]' % (_cursor_key(acc[0]), ip[1])
+                if key in cs:
+                    return key, ip[2]
+            return None
+
         def transfer(node, st, record=False):
             st = dict(st)
             for ev in node_effects(node):
+                if ev.kind == 'store' and streams_of_counter(ev.lhs):
+                    op = ev.node['op']
+                    k = const_val(ev.node['r'])
+                    for key in streams_of_counter(ev.lhs):
+                        if op == '+=' and k is not None and k > 0:
+                            need = set(range(k))
+                            have = st.get(key, frozenset())
+                            if record:
+                                obligations[(ev.node['id'], key)] = (need <= have, 'indices %s written since the last advance' % sorted(have),
+                                                                     ev.node, key, k)
+                            st[key] = frozenset(i - k for i in have if i >= k)
+                        else:
+                            st[key] = frozenset()      # the counter is set afresh (w = 0) or moved in another way
+                    continue
+                if ev.kind == 'incdec' and streams_of_counter(ev.lhs):
+                    for key in streams_of_counter(ev.lhs):
+                        if ev.delta > 0:
+                            have = st.get(key, frozenset())
+                            if record:
+                                obligations[(ev.node['id'], key)] = (0 in have, 'indices %s written since the last advance' % sorted(have),
+                                                                     ev.node, key, 1)
+                            st[key] = frozenset(i - 1 for i in have if i >= 1)
+                        else:
+                            st[key] = frozenset()
+                    continue
+                if ev.kind == 'store' and stream_store(ev.lhs) is not None and ev.node['op'] == '=':
+                    key, off = stream_store(ev.lhs)
+                    if off >= 0:
+                        st[key] = st.get(key, frozenset()) | {off}
+                    continue
                 if ev.kind == 'store':
                     op = ev.node['op']
                     key = _cursor_key(ev.lhs)
@@ -325,6 +406,58 @@ def _moved_cursors(node):
     return out
 
 
+def _out6_indexed(unit, fn, summ, R):
+    """In-place transformers written with counters: one base pointer read at base[r + c] and written at base[w + c'] with two
+    different counters.  A store is behind the reader when c' <= r - w, the difference bound between the two counters."""
+    from .curdiff import CursorDiffs, NEG
+    reads, writes = {}, {}
+    cfg = fn.cfg()
+    for n in cfg.nodes:
+        for ev in node_effects(n):
+            if ev.kind == 'load':
+                acc = access(ev.node)
+                ip = _index_parts(acc[1]) if acc is not None else None
+                if ip is not None and _is_char_ptr(unit, acc[0], need_mutable=False):
+                    reads.setdefault(_cursor_key(acc[0]), set()).add(ip[0])
+            elif ev.kind == 'store':
+                acc = access(ev.lhs)
+                ip = _index_parts(acc[1]) if acc is not None else None
+                if ip is not None and _is_char_ptr(unit, acc[0]):
+                    writes.setdefault(_cursor_key(acc[0]), set()).add(ip[0])
+    pairs = {b: (reads[b], writes[b]) for b in writes if b in reads and (reads[b] - writes[b])}
+    if not pairs:
+        return 0
+    cd = CursorDiffs(unit, fn, summ)
+    states = cd.run()
+    for n in cfg.nodes:
+        D0 = states.get(n.id)
+        if D0 is None:
+            continue
+
+        def on_event(ev, D, n=n):
+            if ev.kind != 'store':
+                return
+            acc = access(ev.lhs)
+            ip = _index_parts(acc[1]) if acc is not None else None
+            if ip is None or _cursor_key(acc[0]) not in pairs:
+                return
+            rd, wr = pairs[_cursor_key(acc[0])]
+            ok, why = True, ''
+            for r in sorted(rd - {ip[0]}):
+                lag = cd.get(D, 'iv:%d' % r, 'iv:%d' % ip[0])
+                if lag > NEG and ip[2] <= lag:
+                    why = 'index %s%+d with the read counter at least %d ahead' % (ip[1], ip[2], lag)
+                    continue
+                ok = False
+                why = 'store at %s[%s%+d] while the distance of the read counter to %s is %s: it may land beyond the byte being read' % (
+                    _cursor_key(acc[0]), ip[1], ip[2], ip[1], lag if lag > NEG else 'unknown')
+                break
+            R.ob('OUT6', fn, ev.node, 'in-place store %s stays behind the reader' % expr_str(ev.node)[:60], ok, why,
+                 key='store:' + expr_str(ev.node)[:60])
+        cd.transfer(n, D0, on_event=on_event)
+    return 1
+
+
 def out6(units, R):
     """In-place transformers: the write cursor never overtakes a read cursor that is still in use, so every store lands on
     a byte the reader has already passed (or is reading in the same statement).  Difference bounds between all character
@@ -335,6 +468,7 @@ def out6(units, R):
     for unit in (units['cJSON.c'], units['cJSON_Utils.c']):
         summ = summaries_of(unit)
         for fn in unit.function_list:
+            nfn += _out6_indexed(unit, fn, summ, R)
             cd0 = CursorDiffs(unit, fn, summ)
             if len(cd0.keys) < 2:
                 continue
